@@ -67,7 +67,7 @@ fn collect_placeholders(v: &Value, out: &mut Vec<String>) {
 }
 
 pub fn run(ctx: &mut Ctx, _replay: Option<&Value>) {
-    ctx.report.rule = "long histories of Issuer::encode on a fixed document with equal sibling values (34 disclosable paths incl. lists inside non-disclosable sub-containers of disclosed values, nested lists of 4 below objects and below array elements, and a disclosed member value and a disclosed array element each containing a list of 4), decoy maximum cycling through 1..50, every 8th issuance reusing the same Issuer object three times: every salt decodes to >= 16 bytes; salts, disclosure digests and decoys pairwise distinct over the whole history; decoys never equal a real digest, 43 base64url characters like real digests, count in [1,max]; per digest list, the order over >= 200 issuances is not constantly the marking order; quick >= 4*10^5 decoys and >= 5*10^4 disclosures, thorough >= 6*10^6 and >= 10^6; non-trivial = every issuance (distinct by its fresh salts)".to_string();
+    ctx.report.rule = "long histories of Issuer::encode on a fixed document with equal sibling values (34 disclosable paths incl. lists inside non-disclosable sub-containers of disclosed values, nested lists of 4 below objects and below array elements, and a disclosed member value and a disclosed array element each containing a list of 4), decoy maximum cycling through 1..50, every 8th issuance reusing the same Issuer object three times and every other 8th issuing from two clones of one prepared Issuer object: every salt decodes to >= 16 bytes; salts, disclosure digests and decoys pairwise distinct over the whole history; decoys never equal a real digest, 43 base64url characters like real digests, count in [1,max]; per digest list, the order over >= 200 issuances is not constantly the marking order; quick >= 4*10^5 decoys and >= 5*10^4 disclosures, thorough >= 6*10^6 and >= 10^6; non-trivial = every issuance (distinct by its fresh salts)".to_string();
     let (want_decoys, want_discs) = if ctx.tier_thorough { (6_000_000usize, 1_000_000usize) } else { (400_000usize, 50_000usize) };
     let scale = ctx.cases.map(|c| c as usize);
     let enc = keys::enc_key(0, 0);
@@ -94,7 +94,10 @@ pub fn run(ctx: &mut Ctx, _replay: Option<&Value>) {
             h.typ = Some("sd-jwt".into());
             issuer.header(h);
             let mut v = Vec::new();
-            for _ in 0..repeats { v.push(issuer.encode(&enc)?); }
+            // every 8th issuance issues twice from CLONES of one prepared issuer object (a clone must not
+            // carry randomness along), another 8th three times from the same object
+            if i % 8 == 4 { v.push(issuer.clone().encode(&enc)?); v.push(issuer.clone().encode(&enc)?); }
+            else { for _ in 0..repeats { v.push(issuer.encode(&enc)?); } }
             Ok(v)
         });
         let toks = match out {
